@@ -674,7 +674,7 @@ func (w *rsWorld) runHealth() {
 	tsTime := time.UnixMilli(ld.Timestamp)
 	week := 7 * 24 * time.Hour
 	cases := []string{"ok", "stale", "fresh-4.9", "fresh-5.0", "stale-5.1", "resigned", "renamed", "truncated", "missing-checkpoint", "missing-json",
-		"bad-key", "sunset-ok", "sunset-root", "sunset-size", "sunset-ts", "sunset-no-final", "sunset-boundary", "extension", "garbage-json"}
+		"bad-key", "origin-line", "sunset-ok", "sunset-root", "sunset-size", "sunset-ts", "sunset-no-final", "sunset-boundary", "extension", "garbage-json"}
 	for i := 0; i < p.Cases; i++ {
 		c := cases[r.Intn(len(cases))]
 		w.sim.Probe("cases")
@@ -753,6 +753,11 @@ func (w *rsWorld) runHealth() {
 			json.Unmarshal(lj(), &j)
 			j["key"] = []byte("not a key")
 			jsonBytes, _ = json.Marshal(j)
+			want = "err"
+		case "origin-line":
+			// the checkpoint's origin line names another log; the signature lines
+			// (which the RFC 6962 signature does not bind to the origin) are intact
+			os.WriteFile(filepath.Join(logDir, "checkpoint"), bytes.Replace(pristineCk, []byte("health.example/log\n"), []byte("health.example/other\n"), 1), 0o644)
 			want = "err"
 		case "extension":
 			// a checkpoint with an extension line, validly signed? cannot be produced with the log key here; use garbage trailing note text
